@@ -8,5 +8,5 @@ cp -r $src/PyMatterSim $tmp/PyMatterSim
 sed -i "$expr" $tmp/$f
 if cmp -s $tmp/$f $src/$f; then echo "MUTATION DID NOT CHANGE THE FILE"; fi
 diff <(cat $src/$f) <(cat $tmp/$f) | head -6
-(cd "$(dirname "$0")/.." && PYVC_REPO=$tmp PYVC_NO_EVIDENCE=1 ./check $prop --tier quick "$@" 2>&1 | grep -E "^\[pyvc\]|VIOLATION|UNDECIDED|CHECKER|KNOWN|FAILED" | head -12; echo "exit=${PIPESTATUS[0]}")
+(cd "$(dirname "$0")/.." && PYVC_REPO=$tmp PYVC_NO_EVIDENCE=1 PYVC_REPLAY_DIR=$tmp/replays ./check $prop --tier quick "$@" 2>&1 | grep -E "^\[pyvc\]|VIOLATION|UNDECIDED|CHECKER|KNOWN|FAILED" | head -12; echo "exit=${PIPESTATUS[0]}")
 rm -rf $tmp
